@@ -935,11 +935,20 @@ class _PatchedSolve:
         _SOLVE_STATE.clear()
 
 
-def gen_survey_spec(rng, big=False, adversarial_keys=False):
+# (nsrc, nrec, nfreq) of the deterministic first block: more frequencies than
+# receivers, one receiver, more sources than frequencies, one frequency, one source, ...
+# (a hand-over name that mixes up the three survey dimensions collides on some of them)
+DIMS_BLOCK = [(2, 1, 3), (3, 1, 2), (2, 2, 4), (4, 3, 2), (3, 2, 1), (1, 1, 3), (2, 3, 3)]
+
+
+def gen_survey_spec(rng, big=False, adversarial_keys=False, dims=None):
     shape = [rng.choice([4, 4, 6, 8] if big else [4, 4, 6]) for _ in range(3)]
-    nsrc = 3
-    nfreq = rng.choice([2, 2, 3])
-    nrec = rng.choice([2, 3])
+    if dims is None:
+        nsrc = rng.choice([2, 3, 3])
+        nrec = rng.choice([1, 2, 3])
+        nfreq = rng.choice([2, 3, 4])
+    else:
+        nsrc, nrec, nfreq = dims
     spec = dict(
         shape=shape,
         h=[[rng.choice([100.0, 150.0, 200.0, 250.0]) for _ in range(m)] for m in shape],
@@ -953,6 +962,7 @@ def gen_survey_spec(rng, big=False, adversarial_keys=False):
         freqs=sorted(rng.sample([0.25, 0.5, 1.0, 2.0, 4.0, 8.0], nfreq)),
         obs_scale=1.0 + rng.randint(1, 8) / 16.0,
         vec_seed=rng.randint(0, 2**31 - 1),
+        dims=[nsrc, nrec, nfreq],
     )
     if adversarial_keys:
         # arbitrary user strings as keys: separators, blanks, one key a prefix of another
@@ -1092,12 +1102,24 @@ def reference(spec):
     return obs, ref
 
 
-def own_task_oracle(spec, obs):
+def own_task_oracle(spec, obs, file_dir=False):
     """Independent of process_map and of the store loops: solve the task of
     every (source, frequency) slot by itself and compare with what the
-    simulation stored in that slot (forward field and back-propagated field)."""
+    simulation stored in that slot (forward field and back-propagated field).
+    With file_dir=True the simulation hands its tasks over through files."""
+    fd = tempfile.mkdtemp(prefix='c11_own_') if file_dir else None
+    try:
+        return _own_task_oracle(spec, obs, fd)
+    except Exception as e:       # noqa
+        return ['own-task run raised ' + type(e).__name__ + ': ' + str(e)[:200]]
+    finally:
+        if fd:
+            shutil.rmtree(fd, ignore_errors=True)
+
+
+def _own_task_oracle(spec, obs, fd):
     from emg3d import _multiprocessing as _mp
-    sim = build_sim(spec, 1, None)
+    sim = build_sim(spec, 1, fd)
     sim.compute()
     sim.survey.data['observed'][...] = obs
     _ = sim.gradient
@@ -1155,6 +1177,41 @@ def compare_digests(ref, digs):
     return bad
 
 
+def dims_block_hits(rng, block, hist=None, stop_at_first=False):
+    """For every (nsrc, nrec, nfreq) of the block: file_dir mode (sequential, so no
+    forking) against the in-memory reference (forward + gradient digests) and the
+    own-task oracle in file_dir mode.  Returns hit dicts with the concrete survey."""
+    hits = []
+    for dims in block:
+        spec = gen_survey_spec(rng, dims=dims)
+        spec['shape'] = [4, 4, 4]
+        spec['h'] = [h[:4] if len(h) >= 4 else (h + [200.0] * 4)[:4] for h in spec['h']]
+        spec['prop'] = (spec['prop'] * 2)[:64]
+        sim = build_sim(spec, 1, None)
+        sim.compute()
+        obs = sim.data.synthetic.data.copy() * spec['obs_scale']
+        ref = observe(build_sim(spec, 1, None), 'gradient', obs)
+        cfg = dict(max_workers=1, file_dir=True, what='gradient', pattern='none', delays=[],
+                   tqdm_masked=False, recompute=False)
+        digs, comp = run_sim_config(spec, cfg, obs)
+        bad = compare_digests(ref, digs)
+        own = own_task_oracle(spec, obs, file_dir=True)
+        if hist is not None:
+            k = 'sim:dims_block/file'
+            hist[k] = hist.get(k, 0) + 1
+        if bad or own:
+            hits.append({'signature': 'simulation result depends on execution configuration',
+                         'kind': 'simulation', 'spec': spec, 'config': cfg,
+                         'observed': ('digests differ from the in-memory run: ' + ', '.join(bad[:6])
+                                      if bad else '') + (' | ' + '; '.join(own[:4]) if own else ''),
+                         'required': 'file_dir run bit-identical to max_workers=1 in memory; every '
+                                     'slot = result of its own task',
+                         'completion_order': comp})
+            if stop_at_first:
+                break
+    return hits
+
+
 def correspondence_sim(ctx, dis, hist):
     nsurv = 4 if ctx.thorough else 2
     runs, perturbed, samples, distinct = 0, 0, [], set()
@@ -1200,6 +1257,17 @@ def correspondence_sim(ctx, dis, hist):
                             'spec_full': spec})
             elif len(samples) < 3 and first != sorted(first):
                 samples.append(brief)
+    # deterministic block of survey dimensions (nsrc, nrec, nfreq), file_dir mode
+    nblock = len(DIMS_BLOCK) if ctx.thorough else 4
+    for h in dims_block_hits(ctx.rng, DIMS_BLOCK[:nblock], hist):
+        dis.append({'what': 'file_dir run differs from the in-memory run / a slot does not hold '
+                            'the result of its own task, for survey dimensions '
+                            f"(nsrc, nrec, nfreq) = {tuple(h['spec']['dims'])}",
+                    'signature': h['signature'],
+                    'case': {'dims': h['spec']['dims'], 'config': h['config']},
+                    'impl': h['observed'], 'model': h['required'], 'spec_full': h['spec']})
+    runs += 2 * nblock
+    distinct.update(('dims', d) for d in DIMS_BLOCK[:nblock])
     # arbitrary string keys (file names must not depend on what the keys contain)
     spec = gen_survey_spec(ctx.rng, adversarial_keys=True)
     obs, ref = reference(spec)
@@ -1311,7 +1379,10 @@ def search(ctx, broken):
                 break
         if hits:
             break
-    # 2. one survey, the sharpest configurations
+    # 2. deterministic first block of survey dimensions in file_dir mode
+    if not hits:
+        hits += dims_block_hits(rng, DIMS_BLOCK, stop_at_first=True)
+    # 3. one survey, the sharpest configurations
     if not hits:
         spec = gen_survey_spec(rng)
         obs, ref = reference(spec)
@@ -1333,7 +1404,7 @@ def search(ctx, broken):
                              'completion_order': comp})
                 break
     if not hits:
-        own = own_task_oracle(spec, obs)
+        own = own_task_oracle(spec, obs) + own_task_oracle(spec, obs, file_dir=True)
         if own:
             hits.append({'signature': 'slot holds the result of another task',
                          'kind': 'own_task', 'spec': spec,
